@@ -1,0 +1,25 @@
+//go:build verif
+
+package wasm
+
+import "sync/atomic"
+
+// verifYieldHook is the schedule hook installed by the verification harness (build tag verif only).
+var verifYieldHook atomic.Pointer[func(tag string, m *ModuleInstance)]
+
+// SetVerifYield installs (or, with nil, removes) the function called at the named schedule points
+// between the atomic actions of the module lifecycle (see VerifYield call sites).
+func SetVerifYield(f func(tag string, m *ModuleInstance)) {
+	if f == nil {
+		verifYieldHook.Store(nil)
+		return
+	}
+	verifYieldHook.Store(&f)
+}
+
+// VerifYield is a schedule point: a no-op unless a hook is installed.
+func VerifYield(tag string, m *ModuleInstance) {
+	if f := verifYieldHook.Load(); f != nil {
+		(*f)(tag, m)
+	}
+}
